@@ -45,7 +45,7 @@ ASSUMPTIONS = [
     "Kids order inside a node is not constrained by ISO 7.9.6/7.9.7 (only leaf arrays are sorted); shuffled Kids "
     "with correct Limits are generated at low rate",
     "names used as keys of the PDF-1.1 /Dests dictionary are valid UTF-8 (public convention: name -> str)",
-    "settings.STRICT is left at its default (False)",
+    "settings.STRICT is left at its default (False), except for a second pass over the page labels with STRICT on",
 ]
 
 # Optional dimensions that go slightly beyond the DESIGN.md domain but stay inside ISO 32000-1 (see notes/C17.md).
@@ -652,6 +652,27 @@ def _run_labels(case, classes, nt):
             return Outcome(classes, known="alpha-label-over-26")
         return Outcome(classes, nt, fail="[alpha-label-over-26] " + "; ".join(bad_known[:3]) + " ranges=%r" % (case["ranges"],),
                        sample=case.get("sample"))
+    # ---- the same labels with settings.STRICT on: a conforming tree gives no reason to raise, and the strict accessors
+    # must accept every optional entry being absent
+    # (not for shuffled Kids: ISO does not order them, pdfminer's strict mode asks for sorted trees)
+    if "num-kids-shuffled" not in case.get("classes", []):
+        from pdfminer import settings
+
+        logging.disable(logging.WARNING)
+        old = settings.STRICT
+        settings.STRICT = True
+        try:
+            got3 = list(itertools.islice(_open(case["pdf"]).get_page_labels(), n))
+        except Exception as e:
+            return Outcome(classes + ["strict"], nt, fail="labels with settings.STRICT = True: raised %s: %s ranges=%r" % (
+                type(e).__name__, e, case["ranges"]), sample=case.get("sample"))
+        finally:
+            settings.STRICT = old
+            logging.disable(prev)
+        if got3 != got1:
+            return Outcome(classes + ["strict"], nt, fail="labels with settings.STRICT = True differ: %r, otherwise %r ranges=%r" % (
+                got3[:6], got1[:6], case["ranges"]), sample=case.get("sample"))
+        classes = classes + ["strict-pass"]
     return Outcome(classes, nt, sample=case.get("sample"))
 
 
